@@ -26,7 +26,66 @@ def cases(tier, seed):
     for g in ([(1, 2), (2, 2), (1, 3)] if tier == 'quick' else [(1, 2), (2, 1), (2, 2), (1, 3), (3, 1), (1, 4)]):
         for save in (2, 3):
             out.append({'kind': 'collector', 'grid': list(g), 'save': save, 'cost': 60 * g[0] * g[1]})
+    # global min/max with a plot-only rank (it owns an empty block and must not influence the result), drawing rank first/middle/last
+    for size in ((3, 5) if tier == 'quick' else (2, 3, 4, 5, 7)):
+        for draw in sorted(set([0, size // 2, size - 1])):
+            out.append({'kind': 'plotminmax', 'size': size, 'draw': draw, 'cost': 10 * size})
     return out
+
+
+def _plotminmax(case, V, st):
+    import numpy as np
+    from pgv import sim, simmpi
+    MPI = sim.setup()
+    from pygyro.initialisation.setups import setupCylindricalGrid
+    size, draw = case['size'], case['draw']
+    mm_cases = [(None, None), (0, 2), (3, 1), (2, 6), ([0, 3], [2, 1]), ([1, 2], [7, 0]), (1, 0)]
+    I = np.indices(NPTS)
+    # all values positive in one field and all negative in the other: a neutral element of the wrong sign would win
+    FS = [('positive', 2.0 + np.sin(1 + I[0] * 1.3 + I[1] * 0.7 + I[2] * 2.1 + I[3] * 0.9)), ('negative', -3.0 + np.cos(2 + I[0] * 0.3 + I[1] * 1.7 + I[2] * 1.1 + I[3] * 0.4))]
+
+    def fn(r):
+        comm = MPI.COMM_WORLD
+        g, c, t = setupCylindricalGrid(layout='v_parallel', npts=list(NPTS), comm=comm, plotThread=True, drawRank=draw)
+        out = []
+        for lname in ('v_parallel', 'poloidal', 'flux_surface'):
+            g.setLayout(lname)
+            l = g.getLayout(lname)
+            for name, F in FS:
+                if r != draw:
+                    sl = tuple(slice(int(a), int(b)) for a, b in zip(l.starts, l.ends))
+                    g.getAllData()[:] = np.transpose(F, l.dims_order)[sl]
+                for ax, fix in mm_cases:
+                    if ax is None:
+                        out.append((lname, name, ax, fix, g.getMin(draw), g.getMax(draw)))
+                    else:
+                        out.append((lname, name, ax, fix, g.getMin(draw, ax, fix), g.getMax(draw, ax, fix)))
+        return out
+    import io
+    import sys
+    old = sys.stdout
+    sys.stdout = io.StringIO()
+    try:
+        res = simmpi.World(size).run(fn)
+    finally:
+        sys.stdout = old
+    D = dict(FS)
+    for k, (lname, name, ax, fix, mn, mx) in enumerate(res[draw]):
+        if ax is None:
+            sub = D[name]
+        else:
+            idx = [slice(None)] * 4
+            for a, fx in zip(np.atleast_1d(ax), np.atleast_1d(fix)):
+                idx[a] = fx
+            sub = D[name][tuple(idx)]
+        st['evals'] += 2
+        st['nontrivial'] += 2
+        if mn != sub.min() or mx != sub.max():
+            V('minmax-differs:plot-only-rank', 'world of %d with plot-only rank %d, layout %s, field %s, axis %r fixValue %r: got (%r, %r) expected (%r, %r)' % (
+                size, draw, lname, name, ax, fix, mn, mx, sub.min(), sub.max()))
+        for other in range(size):
+            if other != draw and (res[other][k][4] is not None or res[other][k][5] is not None):
+                V('minmax-returned-on-non-drawing-rank', 'rank %d received a min/max meant for the plot-only rank %d' % (other, draw))
 
 
 def _trapw(x):
@@ -277,6 +336,8 @@ def run_case(case):
             _norms(case, V, st)
         elif case['kind'] == 'phi':
             _phi(case, V, st)
+        elif case['kind'] == 'plotminmax':
+            _plotminmax(case, V, st)
         else:
             _collector(case, V, st)
     except Exception as e:  # noqa
